@@ -170,6 +170,13 @@ func check(prop, tier string) int {
 		}
 		var sel []*vc.Obligation
 		nContract := 0
+		// entries that select safety obligations explicitly (C08) count them; elsewhere only contract clauses count
+		wantsSafe := false
+		for _, inc := range en.Include {
+			if strings.HasPrefix(inc, "safe") {
+				wantsSafe = true
+			}
+		}
 		for _, o := range fr.Obligations {
 			suffix := strings.TrimPrefix(o.Name, fr.Func+"/")
 			if !matchAny(en.Include, suffix, true) || matchAny(en.Exclude, suffix, false) {
@@ -178,7 +185,7 @@ func check(prop, tier string) int {
 				}
 			}
 			sel = append(sel, o)
-			if o.Kind != "safe" && o.Kind != "vacuity" && o.Kind != "aux" {
+			if o.Kind != "vacuity" && o.Kind != "aux" && (o.Kind != "safe" || wantsSafe) {
 				nContract++
 			}
 		}
